@@ -291,6 +291,18 @@ func raceCtx(parent context.Context, script string, dir, base string, timeout in
 			got = true
 			if !all {
 				cancel()
+			} else {
+				// agreement mode: the other solvers get a grace period to
+				// confirm or contradict the first answer (three times what
+				// the winner needed, at least 10 s)
+				grace := time.Duration(3*r.seconds*float64(time.Second)) + 10*time.Second
+				go func() {
+					select {
+					case <-time.After(grace):
+						cancel()
+					case <-ctx.Done():
+					}
+				}()
 			}
 		}
 	}
@@ -381,11 +393,57 @@ func (o *Obligation) Solve(dir string, timeout int, all bool) {
 			break
 		}
 	}
-	if o.Kind == "vacuity" {
-		w, _ := race(o.Script(true), dir, base, timeout, false)
-		o.Status, o.Solver, o.Seconds, o.Raw = w.status, w.solver, w.seconds, w.out
-		if w.status == "sat" {
-			o.Model = parseModel(w.out)
+	if o.Kind == "vacuity" || o.Kind == "cover" {
+		// satisfiability of the assumptions (and of the guard): expected sat.
+		// With quantified assumptions the full script may come back unknown;
+		// then the script without them decides: unsat there is unsat of the
+		// whole, sat there is only a weak witness (Phase "A").
+		if !hasQ {
+			w, _ := race(full, dir, base, timeout, false)
+			o.Status, o.Solver, o.Seconds, o.Raw, o.Phase = w.status, w.solver, w.seconds, w.out, "B"
+			if w.status == "sat" {
+				o.Model = parseModel(w.out)
+			}
+			return
+		}
+		start := time.Now()
+		type res struct{ w solveResult }
+		chA := make(chan res, 1)
+		chB := make(chan res, 1)
+		ctx, cancel := context.WithCancel(context.Background())
+		defer cancel()
+		tb := timeout
+		if tb > 30 {
+			tb = 30
+		}
+		go func() { w, _ := raceCtx(ctx, o.Script(true), dir, base+".A", timeout, false); chA <- res{w} }()
+		go func() { w, _ := raceCtx(ctx, full, dir, base+".B", tb, false); chB <- res{w} }()
+		var ra, rb *res
+		for ra == nil || rb == nil {
+			select {
+			case r := <-chA:
+				ra = &r
+				if r.w.status == "unsat" {
+					o.Status, o.Solver, o.Raw, o.Phase = "unsat", r.w.solver, r.w.out, "A"
+					o.Seconds = time.Since(start).Seconds()
+					return
+				}
+			case r := <-chB:
+				rb = &r
+				if r.w.status == "sat" || r.w.status == "unsat" {
+					o.Status, o.Solver, o.Raw, o.Phase = r.w.status, r.w.solver, r.w.out, "B"
+					if r.w.status == "sat" {
+						o.Model = parseModel(r.w.out)
+					}
+					o.Seconds = time.Since(start).Seconds()
+					return
+				}
+			}
+		}
+		o.Seconds = time.Since(start).Seconds()
+		o.Status, o.Solver, o.Raw, o.Phase = ra.w.status, ra.w.solver, ra.w.out, "A"
+		if ra.w.status == "sat" {
+			o.Model = parseModel(ra.w.out)
 		}
 		return
 	}
